@@ -1,0 +1,8 @@
+//go:build verif
+
+package ahtree
+
+// VerifSizes: the payload-log and digest-log sizes OpenWith derived from the last commit-log entry.
+func VerifSizes(t *AHtree) (pLogSize, dLogSize int64) {
+	return t.pLogSize, t.dLogSize
+}
